@@ -254,3 +254,10 @@ def core_long(t, length=300, words=2):
         n = len(w)
         yield adds + [['rep', n - 5, w[n - 5]], ['str', False], ['rm', n - 20], ['str', False],
                       ['repf', n - 30, w[n - 30]], ['repself', n - 12], ['rm', 258], ['str', False]]
+
+
+def core_last_twice(t, n):
+    """every sequence of <= n additions whose LAST addition is offered twice (a refused offer repeated verbatim must be
+    refused again; an accepted one simply repeats)"""
+    for h in core_additions(t, n):
+        yield h + [list(h[-1])]
